@@ -1,4 +1,4 @@
 CONSTANTS Names = {"a", "b"}  Keys = {"k1", "k2"}  Vals = {"1", "x=y"}  MaxLen = 4  Extra <- ExtraFull
 SPECIFICATION Spec
-INVARIANTS Agree IgnoreNoise Merge Retrievable BareReading TypedOK FaultFrozen
+INVARIANTS Agree IgnoreNoise Merge Retrievable BareReading EmptyKey TypedOK FaultFrozen
 CHECK_DEADLOCK FALSE
